@@ -771,8 +771,52 @@ func TestVerifC11(t *testing.T) {
 	idForms := func(s *vsession) []string {
 		return []string{s.Id, fmt.Sprint(s.N)}
 	}
+	// the owner of the logged-in session follows its stream on one connection during the whole
+	// matrix: requests that are refused must not have any effect, not on this stream either
+	ownerCtx, ownerCancel := context.WithCancel(context.Background())
+	defer ownerCancel()
+	var ownerMu sync.Mutex
+	ownerSeen := map[string]bool{}
+	ownerEnded := make(chan string, 1)
+	go func() {
+		code, err := c.readMessages(ownerCtx, logged, "0.0", func(m vmsg) bool {
+			ownerMu.Lock()
+			defer ownerMu.Unlock()
+			for _, marker := range []string{"STILL-OPEN-1", "STILL-OPEN-2"} {
+				if strings.Contains(m.Data, marker) {
+					ownerSeen[marker] = true
+				}
+			}
+			return false
+		})
+		ownerEnded <- fmt.Sprintf("%d %v", code, err)
+	}()
+	ownerCheck := func(marker string) {
+		cm++
+		c.post(other, "PRIVMSG #secret :"+marker, cm)
+		deadline := time.Now().Add(5 * time.Second)
+		for time.Now().Before(deadline) {
+			ownerMu.Lock()
+			ok := ownerSeen[marker]
+			ownerMu.Unlock()
+			if ok {
+				rep.Case("public|owner-stream-still-open")
+				return
+			}
+			select {
+			case how := <-ownerEnded:
+				viol("refused-request-ended-the-owners-stream", fmt.Sprintf("the GET /messages request of the session's owner, open during the matrix of refused requests, was terminated (%s)", how))
+				return
+			case <-time.After(20 * time.Millisecond):
+			}
+		}
+		viol("refused-request-ended-the-owners-stream", "the GET /messages request of the session's owner, open during the matrix of refused requests, no longer delivers")
+	}
 	rounds := verifrep.Cases(1)
 	for r := 0; r < rounds; r++ {
+		if r == 0 {
+			ownerCheck("STILL-OPEN-1")
+		}
 		for _, tg := range targets {
 			for _, cr := range creds {
 				for _, idf := range idForms(tg.s) {
@@ -815,6 +859,9 @@ func TestVerifC11(t *testing.T) {
 					}
 				}
 			}
+		}
+		if r == 0 {
+			ownerCheck("STILL-OPEN-2")
 		}
 		// a request for a session that does not exist yet (its id is predictable: the next log
 		// index) stays refused when the session is created while the request is pending
